@@ -329,3 +329,76 @@ def replay_model_cases(recs, backend="numpy", nproc=16, **kw):
                 total[k] += st[k]
             bad.extend(b)
     return total, bad
+
+
+def check_model_case_batch(rec, workdir=None):
+    """C14 on a structural model: rhs / monitor_values / every scheme called once with all input points
+    as columns (per-column parameters and time); column j against the specification's point j."""
+    from . import gx
+    import numpy as np
+
+    stats = {"compared": 0, "undefined": 0, "calls": 0}
+    bad = []
+    text = render_text(rec["blocks"])
+    ctx = {"text": text, "backend": "numpy-batch"}
+    ode = gx.load(text)
+    snames = [e["name"] for b in rec["blocks"] if b["k"] == "states" for e in b["entries"]]
+    pnames = [e["name"] for b in rec["blocks"] if b["k"] == "parameters" for e in b["entries"]]
+    anames = [e["name"] for b in rec["blocks"] if b["k"] == "expressions" for e in b["entries"]]
+    mod = NumpyMod(ode, SCHEMES, delta=float(rec.get("delta", "1e-8")), stiff_states=["x"])
+    N = len(rec["cases"])
+    S = np.zeros((len(snames), N))
+    P = np.zeros((len(pnames), N))
+    T = np.zeros(N)
+    for j, c in enumerate(rec["cases"]):
+        for n in snames:
+            S[mod.index("state", n), j] = qf(c["input"]["states"][n])
+        for n in pnames:
+            P[mod.index("parameter", n), j] = qf(c["input"]["params"][n])
+        T[j] = qf(c["input"]["t"])
+    dts = {qf(c["input"]["dt"]) for c in rec["cases"]}
+    calls = [("rhs", "rhs", "state", snames), ("monitor", "monitor_values", "monitor", anames)]
+    for sc in SCHEMES:
+        calls.append(("hybrid_x" if sc == "hybrid_rush_larsen" else sc, sc, "state", snames))
+    for key, fn, kind, names in calls:
+        for dt in (sorted(dts) if fn in SCHEMES else [None]):
+            try:
+                with gx.quiet_np():
+                    out = mod.ns[fn](T, S.copy(), P.copy()) if dt is None else mod.ns[fn](S.copy(), T, dt, P.copy())
+                out = np.asarray(out)
+            except Exception as ex:  # noqa: BLE001
+                bad.append({"tag": "batch-call", "fn": fn, "exception": type(ex).__name__, "message": str(ex)[:200], **ctx})
+                continue
+            stats["calls"] += 1
+            if out.shape != (len(names), N):
+                bad.append({"tag": "batch-shape", "fn": fn, "got": list(out.shape), "want": [len(names), N], **ctx})
+                continue
+            for j, c in enumerate(rec["cases"]):
+                if dt is not None and qf(c["input"]["dt"]) != dt:
+                    continue
+                for n in names:
+                    _cmp(bad, stats, "batch-" + fn, n, float(out[mod.index(kind, n), j]), c["expect"][key][n],
+                         {**ctx, "fn": fn, "column": j})
+    return stats, bad
+
+
+def _batch_worker(rec):
+    try:
+        return check_model_case_batch(rec)
+    except Exception as ex:  # noqa: BLE001
+        import traceback
+        return {"compared": 0, "undefined": 0, "calls": 0}, [
+            {"tag": "harness", "exception": type(ex).__name__, "message": traceback.format_exc()[-500:],
+             "text": render_text(rec["blocks"]), "backend": "numpy-batch"}]
+
+
+def replay_model_cases_batch(recs, nproc=16):
+    import concurrent.futures as cf
+    total = {"models": len(recs), "compared": 0, "undefined": 0, "calls": 0}
+    bad = []
+    with cf.ProcessPoolExecutor(max_workers=nproc) as ex:
+        for st, b in ex.map(_batch_worker, recs, chunksize=4):
+            for k in ("compared", "undefined", "calls"):
+                total[k] += st[k]
+            bad.extend(b)
+    return total, bad
